@@ -106,19 +106,6 @@ def hull (sites : List Pt) : List Pt :=
     let upper := (chain s.reverse).reverse
     lower.dropLast ++ upper.dropLast
 
-/-- self-certificate of a hull `h` for `sites`: with ≥ 3 vertices it is strictly convex and
-counter-clockwise, its vertices are sites, and every site is on or to the left of every edge;
-with < 3 vertices (degenerate) all sites lie on the closed segment spanned by it -/
-def hullOK (sites h : List Pt) : Bool :=
-  h.all (fun v => memB v sites) &&
-  (match h with
-   | [] => sites.isEmpty
-   | [a] => sites.all (fun s => decide (s = a))
-   | [a, b] => decide (a ≠ b) && sites.all (fun s => onSegment a b s)
-   | _ =>
-     (loopEdges h).all (fun e => sites.all (fun s => decide (0 ≤ Kernel.det e.1 e.2 s))) &&
-     (loopEdges h).all (fun e => h.all (fun v => decide (v = e.1) || decide (v = e.2) || decide (0 < Kernel.det e.1 e.2 v))))
-
 /-! ### elementary edges and chain cancellation -/
 
 def strictlyInside (a b p : Pt) : Bool := onSegment a b p && decide (p ≠ a) && decide (p ≠ b)
@@ -159,6 +146,36 @@ def interiorDisjoint (t u : Tri) : Bool := sepBy t u || sepBy u t
 def pairwiseDisjoint : List Tri → Bool
   | [] => true
   | t :: r => r.all (interiorDisjoint t) && pairwiseDisjoint r
+
+/-! ### hull certificate -/
+
+/-- fan triangulation of an open vertex list from its first vertex -/
+def fanFrom (h0 : Pt) : List Pt → List Tri
+  | [] => []
+  | a :: rest =>
+    match rest with
+    | [] => []
+    | b :: _ => ⟨h0, a, b⟩ :: fanFrom h0 rest
+
+def fan : List Pt → List Tri
+  | [] => []
+  | h0 :: rest => fanFrom h0 rest
+
+/-- self-certificate of a hull `h` for `sites`: with ≥ 3 vertices it is strictly convex and
+counter-clockwise, its vertices are sites, every site is on or to the left of every edge, and its fan
+triangulation from the first vertex consists of positively oriented, pairwise separated triangles;
+with < 3 vertices (degenerate) all sites lie on the closed segment spanned by it -/
+def hullOK (sites h : List Pt) : Bool :=
+  h.all (fun v => memB v sites) &&
+  (match h with
+   | [] => sites.isEmpty
+   | [a] => sites.all (fun s => decide (s = a))
+   | [a, b] => decide (a ≠ b) && sites.all (fun s => onSegment a b s)
+   | _ =>
+     (loopEdges h).all (fun e => sites.all (fun s => decide (0 ≤ Kernel.det e.1 e.2 s))) &&
+     (loopEdges h).all (fun e => h.all (fun v => decide (v = e.1) || decide (v = e.2) || decide (0 < Kernel.det e.1 e.2 v))) &&
+     -- the fan from the first vertex is positively oriented and pairwise separated (used by the covering theorem)
+     (fan h).all (fun t => decide (0 < t.det)) && pairwiseDisjoint (fan h))
 
 /-! ### the Delaunay triangulation certificate -/
 
